@@ -134,6 +134,21 @@ static void exhaustive_ab(int maxLen, const int* entries, int nEntries)
 }
 
 /* repeats at distance exactly one window (65535 +- 2) from the very first byte, for every parser */
+/* short inputs over 2..4 letter alphabets through EVERY HC level (1..12: mid, hash-chain, optimal parsers) and the fast compressor: on such data
+ * almost every position has several candidate matches of similar length, which is where the parsers' tie-breaks and end-of-block guards are exercised */
+static void tiny_alphabet_sweep(u8* data, int ncases)
+{
+    int i;
+    for (i = 0; i < ncases; i++) {
+        size_t n = 13 + rndn(rndp(80) ? 120 : 320), k; int a = 2 + (int)rndn(3), lv, bound;
+        for (k = 0; k < n; k++) data[k] = (u8)('a' + rndn((u32)a));
+        bound = LZ4_compressBound((int)n);
+        do_case(data, n, E_HC, 1, bound, D_ALPHA2, 1); do_case(data, n, E_HC, 2, bound, D_ALPHA2, 1);
+        lv = 3 + (int)rndn(10); do_case(data, n, rndp(50) ? E_HC : E_HC_EXTSTATE, lv, rndp(70) ? bound : (int)rndn((u32)bound + 1), D_ALPHA2, 1);
+        if (rndp(30)) do_case(data, n, E_DEFAULT, 1, bound, D_ALPHA2, 1);
+    }
+}
+
 static void window_edge_cases(u8* data)
 {
     int delta, e; static const int ents[] = {E_DEFAULT, E_HC, E_HC, E_HC, E_HC, E_HC_FAVOR}; static const int params[] = {1, 3, 4, 9, 10, 12};
@@ -171,6 +186,7 @@ int main(int argc, char** argv)
         int ncases = thorough ? 40000 : 2500;
         exhaustive_ab(thorough ? 16 : 11, ents, !strcmp(mode, "c06") ? 3 : 4);
         window_edge_cases(data);
+        tiny_alphabet_sweep(data, thorough ? 40000 : 3000);
         for (i = 0; i < ncases; i++) {
             int kind = (int)rndn(D_KINDS); size_t n = gen_size(i % 50 == 0 ? maxn : (i % 7 == 0 ? 70000 : 3000));
             int entry, param, cap, bound, e, nrep;
